@@ -41,14 +41,23 @@ def definitions_table(F, R):
 
 
 def _ip_plus(n):
-    """`ip + k` or `ip` → k, else None"""
-    n = H.strip(n)
-    if H.is_local(n, "ip"):
-        return 0
-    if n.get("k") == "bin" and n["op"] == "+" and H.is_local(H.strip(n["l"]), "ip"):
-        r = H.strip(n["r"])
-        if r.get("k") == "lit" and r["lk"] == "int":
-            return r["v"]
+    """`ip + k`, `(ip + a) + b`, `k + ip` or `ip` → k, else None"""
+    def lin(x):
+        x = H.strip(x)
+        while x.get("k") == "cast":
+            x = H.strip(x["e"])
+        if H.is_local(x, "ip"):
+            return (1, 0)
+        if x.get("k") == "lit" and x.get("lk") == "int":
+            return (0, x["v"])
+        if x.get("k") == "bin" and x["op"] == "+":
+            a, b = lin(x["l"]), lin(x["r"])
+            if a is not None and b is not None:
+                return (a[0] + b[0], a[1] + b[1])
+        return None
+    r = lin(n)
+    if r is not None and r[0] == 1:
+        return r[1]
     return None
 
 
